@@ -14,7 +14,7 @@ tbl read  <filter> <cmp> <verify:0|1> <file hex> <op> …                       
           o:<key>           OffsetOf                        → ok:<n> | corrupt
           it                full forward iteration          → it:<k>=<v>,… | corrupt
           r:<start>:<limit> iteration of a range (`nil` = open end)
-     (the whole answer is `openerr` when the model's `Table.open` fails)
+     (every answer is `corrupt` when the model's `Table.open` fails, as `r.err` answers every call)
 tbl handles <filter> <cmp> <file hex>      → d:<off>:<len> … [f:<off>:<len>] m:<off>:<len> i:<off>:<len>
 tbl raw <verify:0|1> <file hex> <offset> <length>                                       → ok:<payload hex> | corrupt
 tbl block <restartInterval> <k1> <v1> …                                                 → <block hex>
@@ -178,7 +178,7 @@ def handleTbl : List String → Option String
   | "read" :: f :: c :: v :: file :: ops => do
     let f ← filterById f; let c ← cmpById c; let v ← parseNat? v; let file ← fromHex file
     match Table.open (mkCfg 0 1 f 0 c) (v != 0) file with
-    | none => pure "openerr"
+    | none => pure (" ".intercalate (ops.map fun _ => "corrupt"))   -- `r.err` answers every call
     | some t =>
       let rs ← ops.mapM (runOp t)
       pure (" ".intercalate rs)
